@@ -41,6 +41,7 @@ structure Mon where
   revoked : List (String × Int × Int) := []       -- key id, created (relative), time of revocation
   corrupted : Bool := false                        -- a `rowmut` happened in this case
   faulted : Bool := false                          -- some operation of this case ran with injected faults
+  storeFaulted : Bool := false                     -- … and one of them hit (or may have hit) a metastore WRITE
   anyRevoke : Bool := false
   mats : Nat := 0                                  -- materials created so far (RS:ok)
   level : List (Nat × Nat) := []                   -- material ↦ level (0 data, 1 intermediate, 2 system)
@@ -165,6 +166,10 @@ def Mon.observe (m : Mon) (ws : List String) (fields : List (String × String)) 
       ({ m with multi := multi, aac := aac }, f)
     | _ => (m, fails0)
   let m := if noFault then m else { m with faulted := true }
+  -- "the metastore accepts writes" (C04/C05) fails only when a Store of a faulted operation did not go
+  -- through cleanly; faults on reads, the KMS, the AEAD or the allocator are no excuse for using an
+  -- expired key
+  let m := if !noFault && cs.any (fun c => c.startsWith "S:" && !c.endsWith ":1") then { m with storeFaulted := true } else m
   let (m, c03) := checkCalls m cs
   let fails0 := fails0 ++ c03.map fun e => ("C03", e)
   let (m, c20) :=
@@ -189,7 +194,7 @@ def Mon.observe (m : Mon) (ws : List String) (fields : List (String × String)) 
     let ik := (kvr "ik").getD 0
     let fails := if (kvr "chain") == some 0 && !m.corrupted then fails ++ [("C02", "record returned although its key chain is not in the metastore")] else fails
     -- C04: IK not expired
-    let timed := !m.faulted && !m.corrupted     -- C04/C05 speak about a metastore that accepts writes
+    let timed := !m.storeFaulted && !m.corrupted     -- C04/C05 speak about a metastore that accepts writes
     let fails := if timed && isExpired now (ik + t0) p.expireAfter && p.precision ≤ p.expireAfter then
         fails ++ [("C04", s!"record names IK created {ik} which is expired at this time")] else fails
     let ikId := s!"ik{part}"
